@@ -352,3 +352,26 @@ class DepDelete(DepWrite):
     qual = DAL + ".__delete__"
     inner = "__delete__"
     raises = {"RuntimeError": "exc_unbound", "AttributeError": "exc_any", "*": "exc_any"}
+
+
+@register
+class AliasSetName(Contract):
+    """__set_name__(owner, name): records the class and the attribute name the alias sits under - the name the
+    per-instance override slot is derived from - and keeps the target path, transform, passthrough flag and fallback"""
+    qual = AL + ".__set_name__"
+    recv = AL
+    named = ("attr", "transform", "passthrough", "fallback", "_attr_path")
+
+    def setup(self, c):
+        st, s = c.pre, c.self
+        st.assume(is_ref(s), a_of(s) >= 1000, a_of(s) < st.alloc)
+        st.assume(is_str(c.eng.to_val(st, c.name)))
+
+    def modifies(self, c):
+        return [a_of(c.self)]
+
+    def post(self, c):
+        st, s = c.pre, c.self
+        return [("owner_attr", fld(c.post, s, "_owner_attr") == c.eng.to_val(st, c.name)),
+                ("owner", fld(c.post, s, "_owner") == c.eng.to_val(st, c.owner)),
+                ("config-kept", z3.And([fld(c.post, s, n) == fld(st, s, n) for n in self.named]))]
